@@ -10,7 +10,8 @@ import vlib
 
 CLAUSES = {
     "C01": {"outcome_for_unknown", "outcome_twice", "outcome_missing_at_close", "close_returns", "channels_closed",
-            "input_accepts"},
+            "input_accepts", "no_panic"},
+    "C12": {"close_returns", "channels_closed", "input_accepts", "no_panic"},
     "C02": {"log_order", "success_offset_order"},
     "C04": {"success_offset_holds_message", "success_partition_is_chosen", "nothing_foreign_appended",
             "wire_content_equals_submitted"},
@@ -18,7 +19,7 @@ CLAUSES = {
             "nothing_foreign_appended"},
     "C16": {"max_messages", "max_message_bytes", "max_request_size", "oversize_rejected_not_sent",
             "flush_without_more_input"},
-    "C18": {"intercept_once", "intercept_unknown_message", "intercept_chain_order", "intercept_missing"},
+    "C18": {"intercept_once", "intercept_unknown_message", "intercept_chain_order", "intercept_missing", "no_panic"},
 }
 
 PIDX = {"p1": 0, "p2": 1}
@@ -337,7 +338,13 @@ def run_scenarios(ctx, scenarios, name="prod", shards=8, timeout=1500):
             f.write(json.dumps(s) + "\n")
     rc, out, trace, sums = ctx.go_test_parallel("^TestVerifProducer$", cases, nproc=12, timeout=timeout, name=name,
                                                 only=["sim_cluster*", "sim_fetch*", "prod_driver*"])
-    ctx.need_go(rc, out, "producer scenarios (%s)" % name)
+    crash = []
+    if rc != 0 and ("panic: " in out or "fatal error: " in out):
+        crash = vlib.crash_violations(out)
+        if crash is None:
+            ctx.need_go(rc, out, "producer scenarios (%s)" % name)
+    elif rc != 0:
+        ctx.need_go(rc, out, "producer scenarios (%s)" % name)
     rs = ctx.tlc_trace("ProducerObsTrace", "ProducerObsTrace.cfg", trace, shards=shards, name="trace-" + name)
     viols, stats = [], {}
     for r in rs:
@@ -350,7 +357,7 @@ def run_scenarios(ctx, scenarios, name="prod", shards=8, timeout=1500):
         viols += vlib.trace_viols(r)
     if stats.get("simerr", 0) > 0:
         raise vlib.Inconclusive("simulated cluster reported an internal error (sim_error event) in %s" % name)
-    if stats.get("traces", 0) != len(scenarios):
+    if stats.get("traces", 0) != len(scenarios) and not crash:
         raise vlib.Inconclusive("validated %d traces, ran %d scenarios" % (stats.get("traces", 0), len(scenarios)))
     # attach features: scenario configuration, the violating event, and the cause-level
     # features the known-finding signatures speak about (computed from the trace itself)
@@ -368,7 +375,7 @@ def run_scenarios(ctx, scenarios, name="prod", shards=8, timeout=1500):
             v["features"] = {"scenario": cfg.get("name"), "family": cfg.get("family"), "idem": cfg.get("idem"),
                              "retryMax": cfg.get("retryMax"), "nparts": cfg.get("nparts"), "nbrokers": cfg.get("nbrokers"),
                              "cause": cause_of(tr, v["index"]), "err": e.get("err", ""), "event": e}
-    return viols, stats, trace, cases
+    return viols + crash, stats, trace, cases
 
 
 def cause_of(tr, index):
